@@ -323,6 +323,11 @@ def _pattern_text(node):
     raise TableError("unrecognised pattern expression")
 
 
+def _twins():
+    from . import twins
+    return twins.twin_table(core.REPO)
+
+
 # ------------------------------------------------------------------ cli.py
 
 def cli_tables():
@@ -388,7 +393,7 @@ def cli_tables():
 
 def extract_all():
     return {"parser": parser_tables(), "filter": filter_tables(), "env": env_tables(), "pointer": pointer_tables(),
-            "exceptions": exception_tables(), "lexer": lexer_tables(), "cli": cli_tables()}
+            "exceptions": exception_tables(), "lexer": lexer_tables(), "cli": cli_tables(), "twins": _twins()}
 
 
 def render_lean(t) -> str:
@@ -444,6 +449,8 @@ def render_lean(t) -> str:
     a("def lexerEnvTokens : List (String × String) := " + llist(f"({lstr(k)}, {lstr(v)})" for k, v in lx["env_tokens"]))
     a(f"def lexerEnvTokensLongestFirst : Bool := {'true' if lx['longest_first'] else 'false'}")
     a("def lexerPatterns : List (String × String) := " + llist(f"({lstr(k)}, {lstr(v)})" for k, v in sorted(lx["patterns"].items())))
+    a("/-- sync/async twins of the evaluation modules: (file:Class.method, equal modulo the async machinery, digest of the normalised difference) -/")
+    a("def asyncTwins : List (String × Bool × String) := " + llist(f"({lstr(k)}, {'true' if eq else 'false'}, {lstr(d)})" for k, eq, d in t["twins"]))
     a("def lexerInitPatterns : List (String × String) := " + llist(f"({lstr(k)}, {lstr(v)})" for k, v in lx["init"]))
     c = t["cli"]
     a("\n/-- cli.py: per handler, its `try` blocks: (functions called in the body, handlers: (classes, --debug re-raises, writes stderr, exit code)) -/")
